@@ -5,7 +5,9 @@
 (* one line of trace.ndjson:                                               *)
 (*   [op, mode, rule, bk, sg, cfg, body, acc, obs]                         *)
 (*     op    "reset" (fresh ledger or resynchronisation: obs = set in      *)
-(*           force) | "hdr" (AddHeader) | "sub" (SubmitBlock) | "add"      *)
+(*           force) | "sync" (random runs only, after a rejected           *)
+(*           announcing block: bk / sg = sets the node holds for headers / *)
+(*           blocks) | "hdr" (AddHeader) | "sub" (SubmitBlock) | "add"     *)
 (*           (AddBlock)                                                    *)
 (*     acc   what the real code answered (accepted?)                       *)
 (*     obs   the key set the real node holds afterwards for that path      *)
@@ -34,6 +36,8 @@ Judge(e, S) ==
 
 TReset == /\ Ev.op = "reset"
           /\ fH' = SetOf(Ev.obs) /\ fB' = SetOf(Ev.obs) /\ bad' = bad
+TSync  == /\ Ev.op = "sync"
+          /\ fH' = SetOf(Ev.bk) /\ fB' = SetOf(Ev.sg) /\ bad' = bad
 TOffer == /\ Ev.op \in {"hdr", "sub", "add"}
           /\ LET S  == IF Ev.op = "hdr" THEN fH ELSE fB
                  s2 == MonNext(Ev.mode, S, EvHd(Ev), Ev.acc)
@@ -42,7 +46,7 @@ TOffer == /\ Ev.op \in {"hdr", "sub", "add"}
                 /\ bad' = IF j = {} THEN bad ELSE Append(bad, [i |-> l, clauses |-> j, force |-> SortedSeq(S)])
 
 TraceInit == TLCSet(1, 1) /\ TLCSet(2, <<>>) /\ l = 1 /\ fH = {} /\ fB = {} /\ bad = <<>> /\ st = 0 /\ h = <<>>
-TraceNext == l <= Len(TraceLog) /\ l' = l + 1 /\ UNCHANGED <<st, h>> /\ (TReset \/ TOffer)
+TraceNext == l <= Len(TraceLog) /\ l' = l + 1 /\ UNCHANGED <<st, h>> /\ (TReset \/ TSync \/ TOffer)
 TraceSpec == TraceInit /\ [][TraceNext]_tvars
 
 HighWater == TLCSet(1, IF TLCGet(1) < l THEN l ELSE TLCGet(1)) /\ (l = Len(TraceLog) + 1 => TLCSet(2, bad))
